@@ -31,7 +31,28 @@ import (
 // message builders: (fixture, env, signer, holder of the named position, vault product) -> sdk.Msg
 // `holder` is the account whose position is named (owner matrix: always the owner; control matrix: the signer).
 
-type builder func(f *Fix, e *sim.Env, signer, holder sdk.AccAddress, prod string) sdk.Msg
+type builder func(f *Fix, e *sim.Env, signer, holder sdk.AccAddress, prod string, ax Ax) sdk.Msg
+
+// Ax = the argument axes of an owner cell (Auth.tla): which amount the message carries relative to the named position's
+// whole balance, and which pair / app an order message names.
+type Ax struct{ Amt, Scope string }
+
+// amount picks the message amount: a small fixed one, exactly `whole` (the position's whole available balance), or one unit more.
+func (ax Ax) amount(small int64, whole sdk.Int) sdk.Int {
+	switch ax.Amt {
+	case "zero":
+		return sdk.ZeroInt()
+	case "whole":
+		if whole.IsPositive() {
+			return whole
+		}
+	case "over":
+		if whole.IsPositive() {
+			return whole.AddRaw(1)
+		}
+	}
+	return i(small)
+}
 
 func (f *Fix) ep(prod string) uint64 {
 	if prod == "fixed" {
@@ -69,6 +90,80 @@ func (f *Fix) borrowOf(e *sim.Env, u sdk.AccAddress, pair uint64) uint64 {
 	return id
 }
 
+func (f *Fix) vaultOf(e *sim.Env, u sdk.AccAddress, prod string) vaulttypes.Vault {
+	v, _ := e.App.VaultKeeper.GetVault(e.Ctx, f.vaultID(e, u, f.ep(prod)))
+	if v.AmountIn.IsNil() {
+		v.AmountIn, v.AmountOut, v.InterestAccumulated = sdk.ZeroInt(), sdk.ZeroInt(), sdk.ZeroInt()
+	}
+	return v
+}
+
+func (f *Fix) lockerOf(e *sim.Env, u sdk.AccAddress) lockertypes.Locker {
+	l, _ := e.App.LockerKeeper.GetLocker(e.Ctx, f.lockerID(e, u))
+	if l.NetBalance.IsNil() {
+		l.NetBalance = sdk.ZeroInt()
+	}
+	return l
+}
+
+func (f *Fix) lendPos(e *sim.Env, u sdk.AccAddress, asset uint64) lendtypes.LendAsset {
+	l, _ := e.App.LendKeeper.GetLend(e.Ctx, f.lendOf(e, u, asset))
+	if l.AvailableToBorrow.IsNil() {
+		l.AvailableToBorrow, l.AmountIn = sdk.ZeroInt(), sdk.NewCoin("uatom", sdk.ZeroInt())
+	}
+	return l
+}
+
+func (f *Fix) borrowPos(e *sim.Env, u sdk.AccAddress) lendtypes.BorrowAsset {
+	b, found := e.App.LendKeeper.GetBorrow(e.Ctx, f.borrowOf(e, u, f.PairCmdxCmst))
+	if !found {
+		b.AmountIn, b.AmountOut, b.InterestAccumulated = sdk.NewCoin("uccmdx", sdk.ZeroInt()), sdk.NewCoin("ucmst", sdk.ZeroInt()), sdk.ZeroDec()
+	}
+	return b
+}
+
+func (f *Fix) farmed(e *sim.Env, u sdk.AccAddress) sdk.Int {
+	t := sdk.ZeroInt()
+	if af, found := e.App.LiquidityKeeper.GetActiveFarmer(e.Ctx, f.AppCswap, f.LPool, u); found {
+		t = t.Add(af.FarmedPoolCoin.Amount)
+	}
+	if qf, found := e.App.LiquidityKeeper.GetQueuedFarmer(e.Ctx, f.AppCswap, f.LPool, u); found {
+		for _, q := range qf.QueudCoins {
+			t = t.Add(q.FarmedPoolCoin.Amount)
+		}
+	}
+	return t
+}
+
+func (f *Fix) limitBid(e *sim.Env, u sdk.AccAddress) sdk.Int {
+	if lb, found := e.App.NewaucKeeper.GetUserLimitBidData(e.Ctx, f.CMST, f.CMDX, i(f.premiumOf(u)), u.String()); found {
+		return lb.DebtToken.Amount
+	}
+	return sdk.ZeroInt()
+}
+
+// scopeOf: the app and pair an order message names.
+func (f *Fix) scopeOf(ax Ax) (app, pair uint64) {
+	switch ax.Scope {
+	case "alt":
+		return f.AppCswap, f.AltPair
+	case "decoy":
+		return f.AppDecoy, f.DecoyPair
+	}
+	return f.AppCswap, f.LPair
+}
+
+func (f *Fix) restingOrderIn(e *sim.Env, u sdk.AccAddress, app, pair uint64) uint64 {
+	var id uint64
+	_ = e.App.LiquidityKeeper.IterateOrdersByOrderer(e.Ctx, app, u, func(o liquiditytypes.Order) (bool, error) {
+		if o.PairId == pair && o.Type == liquiditytypes.OrderTypeLimit && o.Status != liquiditytypes.OrderStatusCanceled && id == 0 {
+			id = o.Id
+		}
+		return false, nil
+	})
+	return id
+}
+
 func (f *Fix) restingOrder(e *sim.Env, u sdk.AccAddress) uint64 {
 	var id uint64
 	_ = e.App.LiquidityKeeper.IterateOrdersByOrderer(e.Ctx, f.AppCswap, u, func(o liquiditytypes.Order) (bool, error) {
@@ -100,127 +195,164 @@ func collDenom(prod string) string {
 
 var builders = map[string]builder{
 	// ---- vault
-	"vault.MsgCreate": func(f *Fix, e *sim.Env, s, h sdk.AccAddress, prod string) sdk.Msg {
+	"vault.MsgCreate": func(f *Fix, e *sim.Env, s, h sdk.AccAddress, prod string, ax Ax) sdk.Msg {
 		in := int64(1000)
 		if prod == "fixed" {
 			in = 100
 		}
 		return &vaulttypes.MsgCreateRequest{From: s.String(), AppId: f.AppHarbor, ExtendedPairVaultId: f.ep(prod), AmountIn: i(in * unit), AmountOut: i(300 * unit)}
 	},
-	"vault.MsgDeposit": func(f *Fix, e *sim.Env, s, h sdk.AccAddress, prod string) sdk.Msg {
-		return &vaulttypes.MsgDepositRequest{From: s.String(), AppId: f.AppHarbor, ExtendedPairVaultId: f.ep(prod), UserVaultId: f.vaultID(e, h, f.ep(prod)), Amount: i(10 * unit)}
+	"vault.MsgDeposit": func(f *Fix, e *sim.Env, s, h sdk.AccAddress, prod string, ax Ax) sdk.Msg {
+		return &vaulttypes.MsgDepositRequest{From: s.String(), AppId: f.AppHarbor, ExtendedPairVaultId: f.ep(prod), UserVaultId: f.vaultID(e, h, f.ep(prod)), Amount: ax.amount(10*unit, f.vaultOf(e, h, prod).AmountIn)}
 	},
-	"vault.MsgWithdraw": func(f *Fix, e *sim.Env, s, h sdk.AccAddress, prod string) sdk.Msg {
-		return &vaulttypes.MsgWithdrawRequest{From: s.String(), AppId: f.AppHarbor, ExtendedPairVaultId: f.ep(prod), UserVaultId: f.vaultID(e, h, f.ep(prod)), Amount: i(1 * unit)}
+	"vault.MsgWithdraw": func(f *Fix, e *sim.Env, s, h sdk.AccAddress, prod string, ax Ax) sdk.Msg {
+		return &vaulttypes.MsgWithdrawRequest{From: s.String(), AppId: f.AppHarbor, ExtendedPairVaultId: f.ep(prod), UserVaultId: f.vaultID(e, h, f.ep(prod)), Amount: ax.amount(1*unit, f.vaultOf(e, h, prod).AmountIn)}
 	},
-	"vault.MsgDraw": func(f *Fix, e *sim.Env, s, h sdk.AccAddress, prod string) sdk.Msg {
-		return &vaulttypes.MsgDrawRequest{From: s.String(), AppId: f.AppHarbor, ExtendedPairVaultId: f.ep(prod), UserVaultId: f.vaultID(e, h, f.ep(prod)), Amount: i(5 * unit)}
+	"vault.MsgDraw": func(f *Fix, e *sim.Env, s, h sdk.AccAddress, prod string, ax Ax) sdk.Msg {
+		return &vaulttypes.MsgDrawRequest{From: s.String(), AppId: f.AppHarbor, ExtendedPairVaultId: f.ep(prod), UserVaultId: f.vaultID(e, h, f.ep(prod)), Amount: ax.amount(5*unit, f.vaultOf(e, h, prod).AmountOut)}
 	},
-	"vault.MsgRepay": func(f *Fix, e *sim.Env, s, h sdk.AccAddress, prod string) sdk.Msg {
-		return &vaulttypes.MsgRepayRequest{From: s.String(), AppId: f.AppHarbor, ExtendedPairVaultId: f.ep(prod), UserVaultId: f.vaultID(e, h, f.ep(prod)), Amount: i(5 * unit)}
+	"vault.MsgRepay": func(f *Fix, e *sim.Env, s, h sdk.AccAddress, prod string, ax Ax) sdk.Msg {
+		return &vaulttypes.MsgRepayRequest{From: s.String(), AppId: f.AppHarbor, ExtendedPairVaultId: f.ep(prod), UserVaultId: f.vaultID(e, h, f.ep(prod)), Amount: ax.amount(5*unit, f.vaultOf(e, h, prod).AmountOut.Add(f.vaultOf(e, h, prod).InterestAccumulated))}
 	},
-	"vault.MsgClose": func(f *Fix, e *sim.Env, s, h sdk.AccAddress, prod string) sdk.Msg {
+	"vault.MsgClose": func(f *Fix, e *sim.Env, s, h sdk.AccAddress, prod string, ax Ax) sdk.Msg {
 		return &vaulttypes.MsgCloseRequest{From: s.String(), AppId: f.AppHarbor, ExtendedPairVaultId: f.ep(prod), UserVaultId: f.vaultID(e, h, f.ep(prod))}
 	},
-	"vault.MsgDepositAndDraw": func(f *Fix, e *sim.Env, s, h sdk.AccAddress, prod string) sdk.Msg {
-		return &vaulttypes.MsgDepositAndDrawRequest{From: s.String(), AppId: f.AppHarbor, ExtendedPairVaultId: f.ep(prod), UserVaultId: f.vaultID(e, h, f.ep(prod)), Amount: i(10 * unit)}
+	"vault.MsgDepositAndDraw": func(f *Fix, e *sim.Env, s, h sdk.AccAddress, prod string, ax Ax) sdk.Msg {
+		return &vaulttypes.MsgDepositAndDrawRequest{From: s.String(), AppId: f.AppHarbor, ExtendedPairVaultId: f.ep(prod), UserVaultId: f.vaultID(e, h, f.ep(prod)), Amount: ax.amount(10*unit, f.vaultOf(e, h, prod).AmountIn)}
 	},
-	"vault.MsgCreateStableMint": func(f *Fix, e *sim.Env, s, h sdk.AccAddress, prod string) sdk.Msg {
+	"vault.MsgCreateStableMint": func(f *Fix, e *sim.Env, s, h sdk.AccAddress, prod string, ax Ax) sdk.Msg {
 		return &vaulttypes.MsgCreateStableMintRequest{From: s.String(), AppId: f.AppHarbor, ExtendedPairVaultId: f.EpStable2, Amount: i(100 * unit)}
 	},
-	"vault.MsgDepositStableMint": func(f *Fix, e *sim.Env, s, h sdk.AccAddress, prod string) sdk.Msg {
+	"vault.MsgDepositStableMint": func(f *Fix, e *sim.Env, s, h sdk.AccAddress, prod string, ax Ax) sdk.Msg {
 		return &vaulttypes.MsgDepositStableMintRequest{From: s.String(), AppId: f.AppHarbor, ExtendedPairVaultId: f.EpStable, Amount: i(100 * unit), StableVaultId: f.stableID(e, f.EpStable)}
 	},
-	"vault.MsgWithdrawStableMint": func(f *Fix, e *sim.Env, s, h sdk.AccAddress, prod string) sdk.Msg {
+	"vault.MsgWithdrawStableMint": func(f *Fix, e *sim.Env, s, h sdk.AccAddress, prod string, ax Ax) sdk.Msg {
 		return &vaulttypes.MsgWithdrawStableMintRequest{From: s.String(), AppId: f.AppHarbor, ExtendedPairVaultId: f.EpStable, Amount: i(100 * unit), StableVaultId: f.stableID(e, f.EpStable)}
 	},
-	"vault.MsgVaultInterestCalc": func(f *Fix, e *sim.Env, s, h sdk.AccAddress, prod string) sdk.Msg {
+	"vault.MsgVaultInterestCalc": func(f *Fix, e *sim.Env, s, h sdk.AccAddress, prod string, ax Ax) sdk.Msg {
 		return &vaulttypes.MsgVaultInterestCalcRequest{From: s.String(), AppId: f.AppHarbor, UserVaultId: f.vaultID(e, h, f.ep(prod))}
 	},
 	// ---- locker
-	"locker.MsgCreateLocker": func(f *Fix, e *sim.Env, s, h sdk.AccAddress, prod string) sdk.Msg {
+	"locker.MsgCreateLocker": func(f *Fix, e *sim.Env, s, h sdk.AccAddress, prod string, ax Ax) sdk.Msg {
 		return &lockertypes.MsgCreateLockerRequest{Depositor: s.String(), Amount: i(50 * unit), AssetId: f.CMST, AppId: f.AppHarbor}
 	},
-	"locker.MsgDepositAsset": func(f *Fix, e *sim.Env, s, h sdk.AccAddress, prod string) sdk.Msg {
-		return &lockertypes.MsgDepositAssetRequest{Depositor: s.String(), LockerId: f.lockerID(e, h), Amount: i(10 * unit), AssetId: f.CMST, AppId: f.AppHarbor}
+	"locker.MsgDepositAsset": func(f *Fix, e *sim.Env, s, h sdk.AccAddress, prod string, ax Ax) sdk.Msg {
+		return &lockertypes.MsgDepositAssetRequest{Depositor: s.String(), LockerId: f.lockerID(e, h), Amount: ax.amount(10*unit, f.lockerOf(e, h).NetBalance), AssetId: f.CMST, AppId: f.AppHarbor}
 	},
-	"locker.MsgWithdrawAsset": func(f *Fix, e *sim.Env, s, h sdk.AccAddress, prod string) sdk.Msg {
-		return &lockertypes.MsgWithdrawAssetRequest{Depositor: s.String(), LockerId: f.lockerID(e, h), Amount: i(10 * unit), AssetId: f.CMST, AppId: f.AppHarbor}
+	"locker.MsgWithdrawAsset": func(f *Fix, e *sim.Env, s, h sdk.AccAddress, prod string, ax Ax) sdk.Msg {
+		return &lockertypes.MsgWithdrawAssetRequest{Depositor: s.String(), LockerId: f.lockerID(e, h), Amount: ax.amount(10*unit, f.lockerOf(e, h).NetBalance), AssetId: f.CMST, AppId: f.AppHarbor}
 	},
-	"locker.MsgCloseLocker": func(f *Fix, e *sim.Env, s, h sdk.AccAddress, prod string) sdk.Msg {
+	"locker.MsgCloseLocker": func(f *Fix, e *sim.Env, s, h sdk.AccAddress, prod string, ax Ax) sdk.Msg {
 		return &lockertypes.MsgCloseLockerRequest{Depositor: s.String(), AppId: f.AppHarbor, AssetId: f.CMST, LockerId: f.lockerID(e, h)}
 	},
-	"locker.MsgLockerRewardCalc": func(f *Fix, e *sim.Env, s, h sdk.AccAddress, prod string) sdk.Msg {
+	"locker.MsgLockerRewardCalc": func(f *Fix, e *sim.Env, s, h sdk.AccAddress, prod string, ax Ax) sdk.Msg {
 		return &lockertypes.MsgLockerRewardCalcRequest{From: s.String(), AppId: f.AppHarbor, LockerId: f.lockerID(e, h)}
 	},
 	// ---- lend: the holder has a CMDX lend with a CMST borrow on it, and an ATOM lend without borrows
-	"lend.Lend": func(f *Fix, e *sim.Env, s, h sdk.AccAddress, prod string) sdk.Msg {
+	"lend.Lend": func(f *Fix, e *sim.Env, s, h sdk.AccAddress, prod string, ax Ax) sdk.Msg {
 		return lendtypes.NewMsgLend(s.String(), f.ATOM, coin("uatom", 20*unit), f.Pool, f.AppCommodo)
 	},
-	"lend.Deposit": func(f *Fix, e *sim.Env, s, h sdk.AccAddress, prod string) sdk.Msg {
-		return lendtypes.NewMsgDeposit(s.String(), f.lendOf(e, h, f.ATOM), coin("uatom", 5*unit))
+	"lend.Deposit": func(f *Fix, e *sim.Env, s, h sdk.AccAddress, prod string, ax Ax) sdk.Msg {
+		return lendtypes.NewMsgDeposit(s.String(), f.lendOf(e, h, f.ATOM), sdk.NewCoin("uatom", ax.amount(5*unit, f.lendPos(e, h, f.ATOM).AmountIn.Amount)))
 	},
-	"lend.Withdraw": func(f *Fix, e *sim.Env, s, h sdk.AccAddress, prod string) sdk.Msg {
-		return lendtypes.NewMsgWithdraw(s.String(), f.lendOf(e, h, f.ATOM), coin("uatom", 5*unit))
+	"lend.Withdraw": func(f *Fix, e *sim.Env, s, h sdk.AccAddress, prod string, ax Ax) sdk.Msg {
+		return lendtypes.NewMsgWithdraw(s.String(), f.lendOf(e, h, f.ATOM), sdk.NewCoin("uatom", ax.amount(5*unit, f.lendPos(e, h, f.ATOM).AvailableToBorrow)))
 	},
-	"lend.CloseLend": func(f *Fix, e *sim.Env, s, h sdk.AccAddress, prod string) sdk.Msg {
+	"lend.CloseLend": func(f *Fix, e *sim.Env, s, h sdk.AccAddress, prod string, ax Ax) sdk.Msg {
 		return lendtypes.NewMsgCloseLend(s.String(), f.lendOf(e, h, f.ATOM))
 	},
-	"lend.Borrow": func(f *Fix, e *sim.Env, s, h sdk.AccAddress, prod string) sdk.Msg {
-		return lendtypes.NewMsgBorrow(s.String(), f.lendOf(e, h, f.ATOM), f.PairAtomCmst, false, coin("ucatom", 10*unit), coin("ucmst", 20*unit))
+	"lend.Borrow": func(f *Fix, e *sim.Env, s, h sdk.AccAddress, prod string, ax Ax) sdk.Msg {
+		return lendtypes.NewMsgBorrow(s.String(), f.lendOf(e, h, f.ATOM), f.PairAtomCmst, false, sdk.NewCoin("ucatom", ax.amount(10*unit, f.lendPos(e, h, f.ATOM).AvailableToBorrow)), coin("ucmst", 20*unit))
 	},
-	"lend.BorrowAlternate": func(f *Fix, e *sim.Env, s, h sdk.AccAddress, prod string) sdk.Msg {
+	"lend.BorrowAlternate": func(f *Fix, e *sim.Env, s, h sdk.AccAddress, prod string, ax Ax) sdk.Msg {
 		return lendtypes.NewMsgBorrowAlternate(s.String(), f.ATOM, f.Pool, coin("uatom", 10*unit), f.PairAtomCmst, false, coin("ucmst", 20*unit), f.AppCommodo)
 	},
-	"lend.DepositBorrow": func(f *Fix, e *sim.Env, s, h sdk.AccAddress, prod string) sdk.Msg {
-		return lendtypes.NewMsgDepositBorrow(s.String(), f.borrowOf(e, h, f.PairCmdxCmst), coin("uccmdx", 10*unit))
+	"lend.DepositBorrow": func(f *Fix, e *sim.Env, s, h sdk.AccAddress, prod string, ax Ax) sdk.Msg {
+		return lendtypes.NewMsgDepositBorrow(s.String(), f.borrowOf(e, h, f.PairCmdxCmst), sdk.NewCoin("uccmdx", ax.amount(10*unit, f.borrowPos(e, h).AmountIn.Amount)))
 	},
-	"lend.Draw": func(f *Fix, e *sim.Env, s, h sdk.AccAddress, prod string) sdk.Msg {
-		return lendtypes.NewMsgDraw(s.String(), f.borrowOf(e, h, f.PairCmdxCmst), coin("ucmst", 5*unit))
+	"lend.Draw": func(f *Fix, e *sim.Env, s, h sdk.AccAddress, prod string, ax Ax) sdk.Msg {
+		return lendtypes.NewMsgDraw(s.String(), f.borrowOf(e, h, f.PairCmdxCmst), sdk.NewCoin("ucmst", ax.amount(5*unit, f.borrowPos(e, h).AmountOut.Amount)))
 	},
-	"lend.Repay": func(f *Fix, e *sim.Env, s, h sdk.AccAddress, prod string) sdk.Msg {
-		return lendtypes.NewMsgRepay(s.String(), f.borrowOf(e, h, f.PairCmdxCmst), coin("ucmst", 5*unit))
+	"lend.Repay": func(f *Fix, e *sim.Env, s, h sdk.AccAddress, prod string, ax Ax) sdk.Msg {
+		return lendtypes.NewMsgRepay(s.String(), f.borrowOf(e, h, f.PairCmdxCmst), sdk.NewCoin("ucmst", ax.amount(5*unit, f.borrowPos(e, h).AmountOut.Amount.Add(f.borrowPos(e, h).InterestAccumulated.TruncateInt()))))
 	},
-	"lend.CloseBorrow": func(f *Fix, e *sim.Env, s, h sdk.AccAddress, prod string) sdk.Msg {
+	"lend.CloseBorrow": func(f *Fix, e *sim.Env, s, h sdk.AccAddress, prod string, ax Ax) sdk.Msg {
 		return lendtypes.NewMsgCloseBorrow(s.String(), f.borrowOf(e, h, f.PairCmdxCmst))
 	},
-	"lend.RepayWithdraw": func(f *Fix, e *sim.Env, s, h sdk.AccAddress, prod string) sdk.Msg {
+	"lend.RepayWithdraw": func(f *Fix, e *sim.Env, s, h sdk.AccAddress, prod string, ax Ax) sdk.Msg {
 		return lendtypes.NewMsgRepayWithdraw(s.String(), f.borrowOf(e, h, f.PairCmdxCmst))
 	},
-	"lend.CalculateInterestAndRewards": func(f *Fix, e *sim.Env, s, h sdk.AccAddress, prod string) sdk.Msg {
+	"lend.CalculateInterestAndRewards": func(f *Fix, e *sim.Env, s, h sdk.AccAddress, prod string, ax Ax) sdk.Msg {
 		return lendtypes.NewMsgCalculateInterestAndRewards(s.String())
 	},
+	// ---- liquidation / auction messages that need oracle prices (prepared by prepCtl)
+	"liquidationsV2.MsgLiquidateExternalKeeper": func(f *Fix, e *sim.Env, s, h sdk.AccAddress, prod string, ax Ax) sdk.Msg {
+		return liquidationsV2types.NewMsgLiquidateExternalKeeperRequest(s, f.AppHarbor, s.String(), coin("ucmdx", 100*unit), coin("ucmst", 100*unit), f.CMDX, f.CMST, false)
+	},
+	"auctionsV2.MsgPlaceMarketBid": func(f *Fix, e *sim.Env, s, h sdk.AccAddress, prod string, ax Ax) sdk.Msg {
+		var id uint64
+		for _, au := range e.App.NewaucKeeper.GetAuctions(e.Ctx) {
+			if au.AppId == f.AppHarbor && au.AuctionType && id == 0 {
+				id = au.AuctionId
+			}
+		}
+		return &auctionsV2types.MsgPlaceMarketBidRequest{AuctionId: id, Bidder: s.String(), Amount: coin("ucmst", 10*unit)}
+	},
 	// ---- liquidity
-	"liquidity.CancelOrder": func(f *Fix, e *sim.Env, s, h sdk.AccAddress, prod string) sdk.Msg {
-		return liquiditytypes.NewMsgCancelOrder(f.AppCswap, s, f.LPair, f.restingOrder(e, h))
+	"liquidity.CancelOrder": func(f *Fix, e *sim.Env, s, h sdk.AccAddress, prod string, ax Ax) sdk.Msg {
+		app, pair := f.scopeOf(ax)
+		return liquiditytypes.NewMsgCancelOrder(app, s, pair, f.restingOrderIn(e, h, app, pair))
 	},
-	"liquidity.CancelAllOrders": func(f *Fix, e *sim.Env, s, h sdk.AccAddress, prod string) sdk.Msg {
-		return liquiditytypes.NewMsgCancelAllOrders(f.AppCswap, s, []uint64{f.LPair})
+	"liquidity.CancelAllOrders": func(f *Fix, e *sim.Env, s, h sdk.AccAddress, prod string, ax Ax) sdk.Msg {
+		app, pair := f.scopeOf(ax)
+		if ax.Scope == "decoy" {
+			return liquiditytypes.NewMsgCancelAllOrders(app, s, []uint64{}) // every pair of the decoy app
+		}
+		return liquiditytypes.NewMsgCancelAllOrders(app, s, []uint64{pair})
 	},
-	"liquidity.CancelMMOrder": func(f *Fix, e *sim.Env, s, h sdk.AccAddress, prod string) sdk.Msg {
-		return liquiditytypes.NewMsgCancelMMOrder(f.AppCswap, s, f.LPair)
+	"liquidity.CancelMMOrder": func(f *Fix, e *sim.Env, s, h sdk.AccAddress, prod string, ax Ax) sdk.Msg {
+		app, pair := f.scopeOf(ax)
+		return liquiditytypes.NewMsgCancelMMOrder(app, s, pair)
 	},
-	"liquidity.Unfarm": func(f *Fix, e *sim.Env, s, h sdk.AccAddress, prod string) sdk.Msg {
-		return liquiditytypes.NewMsgUnfarm(f.AppCswap, f.LPool, s, sdk.NewCoin(f.PoolCoin, i(1000)))
+	"liquidity.Unfarm": func(f *Fix, e *sim.Env, s, h sdk.AccAddress, prod string, ax Ax) sdk.Msg {
+		return liquiditytypes.NewMsgUnfarm(f.AppCswap, f.LPool, s, sdk.NewCoin(f.PoolCoin, ax.amount(1000, f.farmed(e, h))))
 	},
-	"liquidity.UnfarmAndWithdraw": func(f *Fix, e *sim.Env, s, h sdk.AccAddress, prod string) sdk.Msg {
-		return liquiditytypes.NewMsgUnfarmAndWithdraw(f.AppCswap, f.LPool, s, sdk.NewCoin(f.PoolCoin, i(1000)))
+	"liquidity.UnfarmAndWithdraw": func(f *Fix, e *sim.Env, s, h sdk.AccAddress, prod string, ax Ax) sdk.Msg {
+		return liquiditytypes.NewMsgUnfarmAndWithdraw(f.AppCswap, f.LPool, s, sdk.NewCoin(f.PoolCoin, ax.amount(1000, f.farmed(e, h))))
 	},
 	// ---- auctionsV2 limit bids: keyed by (debt, collateral, premium, signer); every holder uses his own premium
-	"auctionsV2.MsgDepositLimitBid": func(f *Fix, e *sim.Env, s, h sdk.AccAddress, prod string) sdk.Msg {
-		return &auctionsV2types.MsgDepositLimitBidRequest{Bidder: s.String(), CollateralTokenId: f.CMDX, DebtTokenId: f.CMST, PremiumDiscount: i(f.premiumOf(h)), Amount: coin("ucmst", 10*unit)}
+	"auctionsV2.MsgDepositLimitBid": func(f *Fix, e *sim.Env, s, h sdk.AccAddress, prod string, ax Ax) sdk.Msg {
+		return &auctionsV2types.MsgDepositLimitBidRequest{Bidder: s.String(), CollateralTokenId: f.CMDX, DebtTokenId: f.CMST, PremiumDiscount: i(f.premiumOf(h)), Amount: sdk.NewCoin("ucmst", ax.amount(10*unit, f.limitBid(e, h)))}
 	},
-	"auctionsV2.MsgCancelLimitBid": func(f *Fix, e *sim.Env, s, h sdk.AccAddress, prod string) sdk.Msg {
+	"auctionsV2.MsgCancelLimitBid": func(f *Fix, e *sim.Env, s, h sdk.AccAddress, prod string, ax Ax) sdk.Msg {
 		return &auctionsV2types.MsgCancelLimitBidRequest{Bidder: s.String(), CollateralTokenId: f.CMDX, DebtTokenId: f.CMST, PremiumDiscount: i(f.premiumOf(h))}
 	},
-	"auctionsV2.MsgWithdrawLimitBid": func(f *Fix, e *sim.Env, s, h sdk.AccAddress, prod string) sdk.Msg {
-		return &auctionsV2types.MsgWithdrawLimitBidRequest{Bidder: s.String(), CollateralTokenId: f.CMDX, DebtTokenId: f.CMST, PremiumDiscount: i(f.premiumOf(h)), Amount: coin("ucmst", 10*unit)}
+	"auctionsV2.MsgWithdrawLimitBid": func(f *Fix, e *sim.Env, s, h sdk.AccAddress, prod string, ax Ax) sdk.Msg {
+		return &auctionsV2types.MsgWithdrawLimitBidRequest{Bidder: s.String(), CollateralTokenId: f.CMDX, DebtTokenId: f.CMST, PremiumDiscount: i(f.premiumOf(h)), Amount: sdk.NewCoin("ucmst", ax.amount(10*unit, f.limitBid(e, h)))}
 	},
 }
 
 // opener messages are sent by a user without a position of that kind; all others by the position holder
 var openers = map[string]bool{"vault.MsgCreate": true, "vault.MsgCreateStableMint": true, "locker.MsgCreateLocker": true,
 	"lend.Lend": true, "lend.BorrowAlternate": true}
+
+// prepCtl prepares what a control cell's message needs beyond the base state (run on the cell's branch before the prices go off).
+func (f *Fix) prepCtl(e *sim.Env, h string) {
+	switch h {
+	case "liquidationsV2.MsgLiquidateExternalKeeper":
+		// the app must hold reserve funds of the debt asset
+		mustOK(e.Deliver(liquidationsV2types.NewMsgAppReserveFundsRequest(f.LP.String(), f.AppHarbor, f.CMST, coin("ucmst", 100*unit))), "app reserve funds")
+	case "auctionsV2.MsgPlaceMarketBid":
+		// a live V2 Dutch auction of the app: the risk vault (or, if a history already consumed it, deeper-lying vaults) is swept
+		for _, p := range []uint64{1500000, 500000, 500000} {
+			SetPrice(e, f.CMDX, p, true)
+			noPanic(func() { liquidationsV2.BeginBlocker(e.Ctx, abci.RequestBeginBlock{}, e.App.NewliqKeeper) })
+			if f.AuctionCount(e, "aucV2.tick") > 0 {
+				break
+			}
+		}
+	}
+}
 
 // roleAsset maps the price roles of a control cell to asset ids.
 func (f *Fix) roleAsset(h, prod, role string) uint64 {
@@ -279,8 +411,22 @@ func (f *Fix) ApplyControls(e *sim.Env, app uint64, breaker bool, esm string) er
 		if r := e.Deliver(esmtypes.NewMsgExecute(f.LP.String(), app)); !r.OK {
 			return fmt.Errorf("esm execute: %s", r.Err)
 		}
-		if br := e.NextBlock(6 * time.Second); br.Panic {
-			return fmt.Errorf("block after esm: %s", br.Err)
+		switch esm {
+		case "fresh":
+			// same block as MsgExecuteESM: the shutdown hook has not run, there is no price snapshot
+		case "blocked":
+			// blocks pass, but the snapshot cannot complete: the feed of an oracle-priced asset that none of the matrix'
+			// price roles consults (USDC) is inactive
+			PriceActive(e, f.USDC, false)
+			for n := 0; n < 2; n++ {
+				if br := e.NextBlock(6 * time.Second); br.Panic {
+					return fmt.Errorf("block after esm: %s", br.Err)
+				}
+			}
+		default:
+			if br := e.NextBlock(6 * time.Second); br.Panic {
+				return fmt.Errorf("block after esm: %s", br.Err)
+			}
 		}
 		if esm == "after" {
 			e.Time = e.Time.Add(2 * time.Hour)
@@ -329,12 +475,16 @@ func (f *Fix) VictimView(e *sim.Env, u sdk.AccAddress) string {
 			xs = append(xs, "borrow:"+bp.String())
 		}
 	}
-	_ = a.LiquidityKeeper.IterateOrdersByOrderer(e.Ctx, f.AppCswap, u, func(o liquiditytypes.Order) (bool, error) {
-		xs = append(xs, "order:"+o.String())
-		return false, nil
-	})
-	if idx, found := a.LiquidityKeeper.GetMMOrderIndex(e.Ctx, u, f.AppCswap, f.LPair); found {
-		xs = append(xs, "mm:"+idx.String())
+	for _, app := range []uint64{f.AppCswap, f.AppDecoy} { // every pair of both liquidity apps
+		_ = a.LiquidityKeeper.IterateOrdersByOrderer(e.Ctx, app, u, func(o liquiditytypes.Order) (bool, error) {
+			xs = append(xs, fmt.Sprintf("order[%d]:%s", app, o.String()))
+			return false, nil
+		})
+		for _, pr := range a.LiquidityKeeper.GetAllPairs(e.Ctx, app) {
+			if idx, found := a.LiquidityKeeper.GetMMOrderIndex(e.Ctx, u, app, pr.Id); found {
+				xs = append(xs, fmt.Sprintf("mm[%d]:%s", app, idx.String()))
+			}
+		}
 	}
 	if af, found := a.LiquidityKeeper.GetActiveFarmer(e.Ctx, f.AppCswap, f.LPool, u); found {
 		xs = append(xs, "afarm:"+af.String())
